@@ -90,7 +90,12 @@ fn main() {
                 let rel = std::env::current_exe().unwrap().parent().unwrap().parent().unwrap().join("release").join("verif");
                 ctx.merge_child(&rel, &["C11", if tier == Tier::Quick { "--quick" } else { "--thorough" }, "--child"]);
             } else {
-                run(&ctx);
+                // a panic of the harness itself (outside the guarded calls into the code under test) must not end
+                // the process silently with status 101: say where it happened; it is inconclusive, not a verdict
+                if let Err(_) = std::panic::catch_unwind(std::panic::AssertUnwindSafe(|| run(&ctx))) {
+                    println!("INCONCLUSIVE property={} the harness panicked outside a guarded call: {}", prop, verif_harness::runner::last_panic().unwrap_or_default());
+                    std::process::exit(2);
+                }
             }
             std::process::exit(ctx.finish());
         }
